@@ -18,7 +18,7 @@ def progress(name, threshold, measure_throughput=True):
         The source observable.
     '''
     def _progress(acc, i):
-        _, counter, countdown, prev_time = acc or (0, threshold, None)
+        _, counter, countdown, prev_time = acc or (None, 0, threshold, None)
 
         counter += 1
         countdown -= 1
